@@ -68,6 +68,7 @@ type Hole struct {
 }
 
 type FuncContract struct {
+	Params    []string // parameter names the contract uses, bound by position
 	Name      string // "WriteBasicTypeList" or "(*SseBinChecksumService).Calc"
 	Pkg       string
 	Mode      string
@@ -529,7 +530,15 @@ func ParseContractFile(path string) (cf *ContractFile, err error) {
 			if i := strings.IndexByte(name, '['); i >= 0 {
 				name = strings.TrimSpace(name[:i])
 			}
-			fc = &FuncContract{Name: name, Pkg: cf.Pkg, Loops: map[int]*LoopSpec{}, Alloc: map[string]*Expr{}, Props: props}
+			var params []string
+			// optional parameter list "Name(p1, p2)": contract names bind to the parameters by position
+			if j := strings.LastIndexByte(name, '('); j > 0 && strings.HasSuffix(name, ")") && !strings.HasPrefix(name[j:], "(*") {
+				for _, p := range strings.Split(name[j+1:len(name)-1], ",") {
+					params = append(params, strings.TrimSpace(p))
+				}
+				name = strings.TrimSpace(name[:j])
+			}
+			fc = &FuncContract{Name: name, Pkg: cf.Pkg, Loops: map[int]*LoopSpec{}, Alloc: map[string]*Expr{}, Props: props, Params: params}
 			cf.Funcs[name] = fc
 			cf.Order = append(cf.Order, name)
 			continue
